@@ -227,6 +227,10 @@ def dictionary_history(chk, tb, rng, L):
     t_rho = L.mat_tensor([[[int(v.real), int(v.imag)] for v in row] for row in rho])
     for rnd, (label, user, rename) in enumerate(dicts):
         ud = un.create_dict(**user)
+        # the matrices handed over are the caller's: the caller goes on using its buffers (here: fills them with
+        # something else), the dictionary keeps what was registered
+        for t in user.values():
+            t.mul_(-3.0).add_(0.25)
         for via in ("argument", "state"):
             for s_ in strings:
                 if not set(s_) <= set(ud):
